@@ -1155,6 +1155,11 @@ class Interp:
             names = self._DUNDER.get(op)
             if names is None:
                 raise EngineError("operator on repo object")
+            if isinstance(a, SObj) and inplace:
+                # `a op= b` on an object: Python tries the in-place method (__imul__, __iadd__, ...) first
+                fi = inspect.getattr_static(a.cls, "__i" + names[0][2:], None)
+                if fi is not None:
+                    return self.call(self._as_callable(fi), [a, b])
             if isinstance(a, SObj):
                 f = inspect.getattr_static(a.cls, names[0], None)
                 if f is not None:
